@@ -1,4 +1,5 @@
 import IpcModel.Frag
+import IpcModel.Wire
 /-! Line-protocol driver: one request per line on stdin, one canonical answer per line on stdout.
 Imports model files only (no Mathlib/Std), so it links as a native executable. -/
 open Frag
@@ -66,6 +67,140 @@ def cmdRecv (toks : List String) : String :=
     s!"res={rresStr r} reads={"|".intercalate (firstRead :: reads)}"
   | _, _, _, _ => "bad-request"
 
+/-! ### values and schemas in prefix notation (same text as `Value::text` / `Schema::text` in the harness) -/
+open Wire in
+partial def parseSchema : List String → Option (Schema × List String)
+  | "u8" :: r => some (.int 1, r)
+  | "u16" :: r => some (.int 2, r)
+  | "u32" :: r => some (.int 4, r)
+  | "u64" :: r => some (.int 8, r)
+  | "bool" :: r => some (.bool, r)
+  | "str" :: r => some (.str, r)
+  | "snd" :: r => some (.sender, r)
+  | "rcv" :: r => some (.receiver, r)
+  | "shm" :: r => some (.shm, r)
+  | "opt" :: r => (parseSchema r).map fun (s, r') => (.opt s, r')
+  | "seq" :: r => (parseSchema r).map fun (s, r') => (.seq s, r')
+  | "tup" :: n :: r => n.toNat?.bind fun k => (many k r).map fun (ss, r') => (.tup ss, r')
+  | "enum" :: n :: r => n.toNat?.bind fun k => (many k r).map fun (ss, r') => (.enum ss, r')
+  | _ => none
+where
+  many : Nat → List String → Option (List Wire.Schema × List String)
+  | 0, r => some ([], r)
+  | k+1, r => (parseSchema r).bind fun (s, r') => (many k r').map fun (ss, r'') => (s :: ss, r'')
+
+def hexVal (c : Char) : Option Nat :=
+  if '0' ≤ c ∧ c ≤ '9' then some (c.toNat - '0'.toNat)
+  else if 'a' ≤ c ∧ c ≤ 'f' then some (c.toNat - 'a'.toNat + 10) else none
+
+def unhex (s : String) : Option (List Nat) :=
+  if s = "-" then some [] else
+  let rec go : List Char → Option (List Nat)
+    | [] => some []
+    | [_] => none
+    | a :: b :: r => do
+      let x ← hexVal a; let y ← hexVal b; let t ← go r
+      pure ((16 * x + y) :: t)
+  go s.toList
+
+def hexDigit (n : Nat) : Char := if n < 10 then Char.ofNat (48 + n) else Char.ofNat (87 + n)
+def hexStr (b : List Nat) : String :=
+  if b.isEmpty then "-" else String.ofList (b.flatMap fun x => [hexDigit (x / 16 % 16), hexDigit (x % 16)])
+
+open Wire in
+partial def parseValue : List String → Option (Value × List String)
+  | "i8" :: n :: r => n.toNat?.map fun k => (.int 1 k, r)
+  | "i16" :: n :: r => n.toNat?.map fun k => (.int 2 k, r)
+  | "i32" :: n :: r => n.toNat?.map fun k => (.int 4 k, r)
+  | "i64" :: n :: r => n.toNat?.map fun k => (.int 8 k, r)
+  | "b0" :: r => some (.bool false, r)
+  | "b1" :: r => some (.bool true, r)
+  | "s" :: h :: r => (unhex h).map fun b => (.str b, r)
+  | "none" :: r => some (.opt none, r)
+  | "some" :: r => (parseValue r).map fun (v, r') => (.opt (some v), r')
+  | "seq" :: n :: r => n.toNat?.bind fun k => (many k r).map fun (vs, r') => (.seq vs, r')
+  | "tup" :: n :: r => n.toNat?.bind fun k => (many k r).map fun (vs, r') => (.tup vs, r')
+  | "var" :: n :: r => n.toNat?.bind fun k => (parseValue r).map fun (v, r') => (.var k v, r')
+  | "snd" :: c :: r => c.toNat?.map fun k => (.sender (.snd k), r)
+  | "rcv" :: c :: r => c.toNat?.map fun k => (.receiver (.rcv k), r)
+  | "shm" :: c :: r => c.toNat?.map fun k => (.shm k, r)
+  | "eshm" :: r => some (.eshm, r)
+  | _ => none
+where
+  many : Nat → List String → Option (List Wire.Value × List String)
+  | 0, r => some ([], r)
+  | k+1, r => (parseValue r).bind fun (v, r') => (many k r').map fun (vs, r'') => (v :: vs, r'')
+
+def attLabel : Wire.Att → Nat
+  | .snd c => c | .rcv c => c
+
+open Wire in
+partial def valueText : Value → String
+  | .int w n => s!"i{w * 8} {n}"
+  | .bool b => if b then "b1" else "b0"
+  | .str b => s!"s {hexStr b}"
+  | .opt none => "none"
+  | .opt (some v) => s!"some {valueText v}"
+  | .seq vs => (s!"seq {vs.length} " ++ " ".intercalate (vs.map valueText)).trimAsciiEnd.toString
+  | .tup vs => (s!"tup {vs.length} " ++ " ".intercalate (vs.map valueText)).trimAsciiEnd.toString
+  | .var k v => s!"var {k} {valueText v}"
+  | .sender a => s!"snd {attLabel a}"
+  | .receiver a => s!"rcv {attLabel a}"
+  | .shm r => s!"shm {r}"
+  | .eshm => "eshm"
+  | .bogus => "bogus"
+
+def splitBar (toks : List String) : List (List String) :=
+  toks.foldr (fun t acc => if t = "|" then [] :: acc else match acc with | [] => [[t]] | h :: r => (t :: h) :: r) [[]]
+
+def schemaSize : Wire.Schema → Nat
+  | .opt s => schemaSize s + 1
+  | .seq s => schemaSize s + 1
+  | .tup ss => ss.foldl (fun a s => a + schemaSize s) 1
+  | .enum ss => ss.foldl (fun a s => a + schemaSize s) 1
+  | _ => 1
+
+def dresText : Wire.DRes Wire.Value → String
+  | .ok v _ _ => s!"ok {valueText v}"
+  | .err => "err"
+  | .panic => "panic"
+
+def cmdEnc (toks : List String) : String :=
+  match splitBar toks with
+  | [_, vt] =>
+    match parseValue vt with
+    | some (v, []) => s!"{hexStr (Wire.enc v 0 0)} nch={(Wire.chans v).length} nshm={(Wire.shms v).length}"
+    | _ => "bad-value"
+  | _ => "bad-request"
+
+def cmdRt (toks : List String) : String :=
+  match splitBar toks with
+  | [st, vt] =>
+    match parseSchema st, parseValue vt with
+    | some (s, []), some (v, []) =>
+      let bytes := Wire.enc v 0 0
+      dresText (Wire.toValue ⟨false⟩ (2 * bytes.length + schemaSize s + 64) s bytes (Wire.chans v) (Wire.shms v))
+    | _, _ => "bad-value"
+  | _ => "bad-request"
+
+def parseAtts (s : String) : Option (List Wire.Att) :=
+  if s = "-" then some [] else
+  (s.splitOn ",").mapM fun t =>
+    match t.toList with
+    | 's' :: r => (String.ofList r).toNat?.map Wire.Att.snd
+    | 'r' :: r => (String.ofList r).toNat?.map Wire.Att.rcv
+    | _ => none
+
+def cmdDec (legacy : Bool) (toks : List String) : String :=
+  match splitBar toks with
+  | [st, [h], [a], [m]] =>
+    match parseSchema st, unhex h, parseAtts a with
+    | some (s, []), some bytes, some atts =>
+      let regions := if m = "-" then [] else (m.splitOn ",").filterMap String.toNat?
+      dresText (Wire.toValue ⟨legacy⟩ (2 * bytes.length + schemaSize s + 64) s bytes atts regions)
+    | _, _, _ => "bad-value"
+  | _ => "bad-request"
+
 /-- all fault patterns (ENOBUFS or not) of length k, as numbers 0 .. 2^k-1 -/
 def patOf (k m : Nat) : List Fault := (List.range k).map fun i => if (m >>> i) % 2 = 1 then .enobufs else .none
 
@@ -93,6 +228,10 @@ def answer (line : String) : String :=
   | "frag" :: rest => cmdFrag rest
   | "recv" :: rest => cmdRecv rest
   | "searchfrag" :: rest => cmdSearchFrag rest
+  | "enc" :: rest => cmdEnc rest
+  | "rt" :: rest => cmdRt rest
+  | "dec" :: rest => cmdDec false rest
+  | "declegacy" :: rest => cmdDec true rest
   | _ => "bad-request"
 
 partial def loop (h : IO.FS.Stream) (out : IO.FS.Stream) : IO Unit := do
